@@ -422,7 +422,9 @@ struct ScriptedRunner : public CommandRunner {
         output += "compiler chatter\n";
       } else if (!depfile.empty()) {
         // compilers do not canonicalise what they print: every other name is spelled with a leading "./" or "x/../"
-        string d = out0 + ":";
+        // ... nor the target: "./obj.o" and "zz/../obj.o" name the statement's output as well
+        size_t hsum = 0; for (char ch : out0) hsum += (unsigned char)ch;
+        string d = string(hsum % 4 == 1 ? "./" : hsum % 4 == 2 ? "zz/../" : "") + out0 + ":";
         for (size_t hi = 0; hi < hid.size(); ++hi) d += " " + string(hi % 3 == 1 ? "./" : hi % 3 == 2 ? "zz/../" : "") + hid[hi];
         d += "\n";
         sc->disk.Put(depfile, d);
